@@ -317,13 +317,16 @@ class _NpProxy:
         return getattr(np, k)
 
 
-def _via_align(x, y, ws):
+def _via_align(x, y, ws, route="align"):
     """the same point sets handed to Umeyama through evo's trajectory API (`PosePath3D.align`, all poses): the triple it
     returns is the one umeyama_alignment computed; unequal sizes must be refused on this route too (never truncated)."""
     from evo.core.trajectory import PosePath3D
     ident = lambda n: np.tile(np.array([1.0, 0.0, 0.0, 0.0]), (n, 1))
     est = PosePath3D(positions_xyz=np.array(x, dtype=float).T.copy(), orientations_quat_wxyz=ident(x.shape[1]))
     ref = PosePath3D(positions_xyz=np.array(y, dtype=float).T.copy(), orientations_quat_wxyz=ident(y.shape[1]))
+    if route == "align-scale-only":
+        # scale-only mode (evo_ape -s without -a): the returned triple is still Umeyama's (with scale); degenerate sets refused
+        return est.align(ref, correct_scale=True, correct_only_scale=True)
     return est.align(ref, correct_scale=bool(ws))
 
 
@@ -335,7 +338,7 @@ def call_evo(x, y, ws, probe=False, route="direct"):
         geometry.np = _NpProxy(log)
     try:
         try:
-            r, t, c = _via_align(x, y, ws) if route == "align" else geometry.umeyama_alignment(x, y, ws)
+            r, t, c = _via_align(x, y, ws, route) if route.startswith("align") else geometry.umeyama_alignment(x, y, ws)
             out = {"R": np.array(r, dtype=float).reshape(3, 3).tolist(), "t": np.array(t, dtype=float).reshape(3).tolist(),
                    "c": float(c), "c_is_float": isinstance(c, float) or isinstance(c, np.floating)}
             if not (np.isfinite(np.array(out["R"])).all() and np.isfinite(np.array(out["t"])).all() and math.isfinite(out["c"])):
@@ -811,6 +814,9 @@ def check(ctx):
     via = [dict(c, route="align") for k, c in enumerate(cases)
            if c.get("flavour", "T-view") == "T-view" and "ws_as" not in c and c["x"] and c["y"]
            and (c.get("deg") == "shape" or c["kind"] in ("near-aligned", "offset", "thin-offset") or k % 5 == 0)]
+    via += [dict(c, route="align-scale-only") for k, c in enumerate(cases)
+            if c.get("flavour", "T-view") == "T-view" and "ws_as" not in c and c["x"] and c["y"] and c["ws"]
+            and (c.get("deg") in ("shape", "axis", "coincident") or k % 7 == 3)]
     ctx.notes["route_align_cases"] = len(via)
     cases += via
     evaluate(ctx, cases)
